@@ -369,7 +369,7 @@ def reachable(backing, root):
     return seen
 
 
-def gen_shared_family(rng):
+def gen_shared_family(rng, third=0.8):
     """Writes that create two byte-identical HASHED leaves under different branch slots (same remaining path,
     same >= 32-byte value), a third key keeping the parent branch alive, then removal of one of the pair."""
     suffix = bytes(rng.choice(ALPHA) for _ in range(rng.randint(0, 2)))
@@ -378,7 +378,7 @@ def gen_shared_family(rng):
     a, b = bytes([firsts[0]]) + suffix, bytes([firsts[1]]) + suffix
     c = bytes([firsts[2]]) + bytes(rng.choice(ALPHA) for _ in range(rng.randint(0, 2)))
     ops = [("set", a, v, "meth"), ("set", b, v, "item")]
-    if rng.random() < 0.8:
+    if rng.random() < third:
         ops.append(("set", c, gen_value(rng), "meth"))
     rng.shuffle(ops)
     victim = rng.choice([a, b])
@@ -389,12 +389,27 @@ def gen_shared_family(rng):
 def gen_writes(rng, n, long_pool=None, tiny=False):
     """n writes and the resulting mapping (tiny: 1..3-byte values only, so that nodes are embedded)"""
     m, ops = {}, []
+    shadow = None
+    if not tiny and rng.random() < 0.15:
+        # this history also stores VALUES that are hashes of nodes present in the same database (the current root, or any
+        # stored node): a value is data and must never be followed as a reference
+        from trie import HexaryTrie
+        shadow = HexaryTrie({})
     for _ in range(n):
         w = gen_write(rng, m.keys(), long_pool)
         if tiny and w[0] == "set" and w[2] != b"":
             w = (w[0], w[1], bytes([rng.choice(VALBYTES)]) * rng.randint(1, 3), w[3])
+        if shadow is not None and w[0] == "set" and w[2] != b"" and shadow.db and rng.random() < 0.4:
+            hs = sorted(k for k in shadow.db if len(k) == 32)
+            if hs:
+                w = (w[0], w[1], bytes(shadow.root_hash) if rng.random() < 0.4 else bytes(rng.choice(hs)), w[3])
         apply_model(m, w)
         ops.append(w)
+        if shadow is not None:
+            try:
+                step(shadow, w, shadow.db)
+            except Exception:
+                shadow = None
     return ops, m
 
 
